@@ -285,21 +285,30 @@ class Program:
                 continue
             selfname = args[0].arg
             for node in ast.walk(fi.node):
-                tgt = ann = val = None
+                pairs = []  # (target, annotation, value)
                 if isinstance(node, ast.AnnAssign):
-                    tgt, ann, val = node.target, node.annotation, node.value
-                elif isinstance(node, ast.Assign) and len(node.targets) == 1:
-                    tgt, val = node.targets[0], node.value
+                    pairs.append((node.target, node.annotation, node.value))
+                elif isinstance(node, ast.Assign):
+                    for t in node.targets:
+                        if isinstance(t, (ast.Tuple, ast.List)):
+                            # self._a, self._b = a, b
+                            if isinstance(node.value, (ast.Tuple, ast.List)) and len(node.value.elts) == len(t.elts):
+                                pairs += [(te, None, ve) for te, ve in zip(t.elts, node.value.elts)]
+                            else:
+                                pairs += [(te, None, None) for te in t.elts]
+                        else:
+                            pairs.append((t, None, node.value))
                 else:
                     continue
-                if (
-                    isinstance(tgt, ast.Attribute)
-                    and isinstance(tgt.value, ast.Name)
-                    and tgt.value.id == selfname
-                ):
-                    prev = c.fields.get(tgt.attr)
-                    if prev is None or (prev[0] is None and ann is not None) or (fi.name == "__init__" and prev[2].name != "__init__"):
-                        c.fields[tgt.attr] = (ann if ann is not None else (prev[0] if prev else None), val, fi)
+                for tgt, ann, val in pairs:
+                    if (
+                        isinstance(tgt, ast.Attribute)
+                        and isinstance(tgt.value, ast.Name)
+                        and tgt.value.id == selfname
+                    ):
+                        prev = c.fields.get(tgt.attr)
+                        if prev is None or (prev[0] is None and ann is not None) or (fi.name == "__init__" and prev[2].name != "__init__"):
+                            c.fields[tgt.attr] = (ann if ann is not None else (prev[0] if prev else None), val, fi)
 
     # --------------------------------------------------------------- queries
     def resolve_name_in_module(self, m: Module, expr: ast.expr) -> str:
